@@ -9,6 +9,7 @@ package main
 import (
 	"fmt"
 	"go/token"
+	"go/types"
 
 	"golang.org/x/tools/go/ssa"
 )
@@ -25,7 +26,45 @@ func runC02(c *Ctx) {
 	ins := P.Func("stree", "Tree", "insert")
 	rewrite := P.Func("stree", "", "rewrite")
 	nodeSize := P.Func("stree", "node", "size")
-	limitF, sizeF := P.Field("stree", "Tree", "limit"), P.Field("stree", "Tree", "size")
+	sizeF := P.Field("stree", "Tree", "size")
+	// the depth-limit role: the Tree field through which the initial budget of the insertion is computed — a
+	// function-typed field that is called, or a field whose method is called — found at the insertion's call site
+	var limitF *types.Var
+	treeT := P.Named("stree", "Tree")
+	limitCallField := func(v ssa.Value) *types.Var {
+		call, ok := v.(*ssa.Call)
+		if !ok {
+			return nil
+		}
+		if _, f := loadedField(call.Call.Value); f != nil {
+			return f
+		}
+		if call.Call.StaticCallee() != nil && len(call.Call.Args) >= 1 {
+			if _, f := loadedField(call.Call.Args[0]); f != nil {
+				return f
+			}
+		}
+		return nil
+	}
+	if ins != nil && treeT != nil {
+		for _, fn := range P.Methods("stree", "Tree") {
+			allInstrs(fn, func(in ssa.Instruction) {
+				call, ok := in.(*ssa.Call)
+				if !ok || staticCallee(&call.Call) != ins || fn == ins {
+					return
+				}
+				for _, a := range call.Call.Args {
+					if f := limitCallField(a); f != nil && limitF == nil {
+						for _, tf := range structFields(treeT) {
+							if sameField(tf, f) {
+								limitF = tf
+							}
+						}
+					}
+				}
+			})
+		}
+	}
 	if ins == nil || rewrite == nil || nodeSize == nil || limitF == nil || sizeF == nil {
 		c.undecided("ANCHOR", "stree.(*Tree).insert / rewrite / node.size / Tree.limit", 0, "anchor not found")
 		return
@@ -147,10 +186,13 @@ func runC02(c *Ctx) {
 					return
 				}
 				lim, ok := call.Call.Args[budget].(*ssa.Call)
-				if !ok || !isLoadOfField(lim.Call.Value, limitF) || len(lim.Call.Args) != 1 {
+				if !ok {
 					return
 				}
-				a := lim.Call.Args[0]
+				if f := limitCallField(lim); f == nil || !sameField(f, limitF) || len(lim.Call.Args) == 0 {
+					return
+				}
+				a := lim.Call.Args[len(lim.Call.Args)-1]
 				if bo, ok := a.(*ssa.BinOp); ok && bo.Op == token.ADD && isConstInt(bo.Y, 1) {
 					a = bo.X
 				}
@@ -224,7 +266,7 @@ func runC02(c *Ctx) {
 	limTest := false
 	for _, cm := range cmpsAt(rw.Block()) {
 		for _, v := range []ssa.Value{cm.X, cm.Y} {
-			if call, ok := v.(*ssa.Call); ok && isLoadOfField(call.Call.Value, limitF) {
+			if call, ok := v.(*ssa.Call); ok && limitCallField(call) != nil && sameField(limitCallField(call), limitF) {
 				// height > limit(size)  ⇔  not (height <= limit)
 				if (cm.Y == v && (cm.Op == token.GTR || cm.Op == token.GEQ)) || (cm.X == v && (cm.Op == token.LSS || cm.Op == token.LEQ)) {
 					limTest = true
